@@ -278,7 +278,7 @@ def _rewrite_iters(body: str, rules: Counter) -> str:
                     rules['I5'] += 1
             # I9: for X in &mut E { *X = V; }
             if new is None:
-                mt = re.fullmatch(r'for (\w+) in &mut ([\w\.]+)', h)
+                mt = re.fullmatch(r'for (\w+) in ?&mut ([\w\.]+)', h)
                 if mt:
                     x, e = mt.groups()
                     mi = re.fullmatch(r'\s*\*' + x + r'\s*=\s*([^;]+);\s*', inner)
